@@ -1,5 +1,5 @@
 # replay of a bounded stand-in violation (C14): re-run native/c14_io.py
 import sys
-print('generate_code Catstate: generated code rebuilds a different program: command 0 (Catstate): parameter 3 (\'str\', \'complex\') loaded as (\'other\', "<class \'complex\'>")')
+print("blackbird tdm-single-band: saving raised KeyError: 'O'")
 print('REPLAY-VIOLATION')
 sys.exit(1)
